@@ -98,7 +98,7 @@ def load_findings(pid):
 
 def match_finding(failure, findings):
     for e in findings:
-        if e['oracle'] == failure.oracle and re.fullmatch(e['sig'], failure.sig):
+        if re.fullmatch(e['oracle'], failure.oracle) and re.fullmatch(e['sig'], failure.sig):
             return e
     return None
 
